@@ -8,6 +8,7 @@
 
 #include "checks/geom_spaces.h"
 #include "draco/core/verif_hooks.h"
+#include "draco/metadata/geometry_metadata.h"
 
 namespace sc {
 
@@ -19,6 +20,7 @@ struct Gen {
   std::string name;
   GeomDef g;
   EncCfg c;
+  int metadata = 0;  // 0 none, 1 flat geometry metadata, 2 nested geometry metadata + attribute metadata
 };
 struct SeamItem {
   int kind;  // 0 rans bit, 1 rans bits32, 2 adaptive bit, 3 symbol
@@ -84,7 +86,29 @@ inline EncResult encode_gen(const Gen &gen, Recorder *rec) {
   std::unique_ptr<PointCloud> cloud;
   if (gen.g.is_mesh) mesh = build_mesh(gen.g);
   else cloud = build_cloud(gen.g);
-  const PointCloud &src = gen.g.is_mesh ? *mesh : *cloud;
+  PointCloud &src = gen.g.is_mesh ? static_cast<PointCloud &>(*mesh) : *cloud;
+  if (gen.metadata) {
+    std::unique_ptr<GeometryMetadata> md(new GeometryMetadata());
+    md->AddEntryString("name", "corpus");
+    md->AddEntryInt("i", 42);
+    if (gen.metadata == 2) {
+      md->AddEntryDouble("d", 2.5);
+      md->AddEntryIntArray("arr", {1, 2, 3});
+      md->AddEntryBinary("bin", std::vector<uint8_t>(40, 0xab));
+      std::unique_ptr<Metadata> sub(new Metadata());
+      sub->AddEntryString("", "");
+      std::unique_ptr<Metadata> subsub(new Metadata());
+      subsub->AddEntryInt("deep", -1);
+      sub->AddSubMetadata("deeper", std::move(subsub));
+      md->AddSubMetadata("sub", std::move(sub));
+      std::unique_ptr<AttributeMetadata> am(new AttributeMetadata());
+      am->AddEntryString("semantic", "position");
+      src.AddMetadata(std::move(md));
+      src.AddAttributeMetadata(0, std::move(am));
+    } else {
+      src.AddMetadata(std::move(md));
+    }
+  }
   draco::verif::Hooks &h = draco::verif::hooks();
   h.ctx = rec;
   h.seam = seam_cb;
@@ -103,7 +127,7 @@ inline EncResult encode_gen(const Gen &gen, Recorder *rec) {
   return r;
 }
 
-inline void add_gen(const std::string &name, const GeomDef &g, const EncCfg &c) { g_gens.push_back({name, g, c}); }
+inline void add_gen(const std::string &name, const GeomDef &g, const EncCfg &c, int metadata = 0) { g_gens.push_back({name, g, c, metadata}); }
 
 inline GeomDef cloud_geom(int n, int poskind, int second) {
   GeomDef g;
@@ -275,6 +299,19 @@ inline void build_generators() {
                       ":bits" + std::to_string(bits),
                   g, c);
         }
+  // M. geometry + attribute metadata
+  for (int md : {1, 2})
+    for (int kind = 0; kind < 4; ++kind) {
+      // kind: 0 mesh sequential, 1 mesh edgebreaker, 2 cloud sequential, 3 cloud kd-tree
+      GeomDef g = kind < 2 ? gs::s1_mesh({{0, 1, 2}, {2, 1, 3}}, 0, gs::POS_F32_Q) : cloud_geom(3, 1, 0);
+      EncCfg c = kind < 2 ? gs::mesh_cfg(kind == 0 ? 0 : 2, 5) : EncCfg();
+      if (kind >= 2) {
+        c.method = kind - 2;
+        c.speed_enc = c.speed_dec = 5;
+      }
+      c.qbits = {10};
+      add_gen("M:metadata" + std::to_string(md) + ":kind" + std::to_string(kind), g, c, md);
+    }
   // R. highly redundant point clouds: long runs of identical points code to far less than a bit per point
   for (int n : {600, 5000})
     for (int pk : {1, 2})
@@ -400,7 +437,7 @@ inline void build_corpus() {
     e.name = g_gens[gi].name;
     e.bytes = r.bytes;
     e.gen = (int)gi;
-    e.evsig = mc::hash_combine(rec.evsig, (uint64_t)r.bytes[7] * 16 + r.bytes[8]);
+    e.evsig = mc::hash_combine(rec.evsig, (uint64_t)r.bytes[7] * 16 + r.bytes[8] + 4096 * (uint64_t)g_gens[gi].metadata);
     e.seam = items;
     g_corpus.push_back(e);
   }
